@@ -117,7 +117,8 @@ def _bomb(item):
     from hdl21.elab.passes import ElabPass
     from ..build import build
 
-    dname, top, pos, victim, cont = item
+    dname, top, pos, victim, cont = item[:5]
+    Raised = KeyboardInterrupt if len(item) > 5 and item[5] == "interrupt" else RuntimeError
     design = dags.DAGS[dname]()
     built = build(design)
     vmod = built.modules[victim]
@@ -125,7 +126,7 @@ def _bomb(item):
     class Bomb(ElabPass):
         def elaborate_module(self, module):
             if module is vmod and Bomb.armed:
-                raise RuntimeError(f"injected fault on {module.name}")
+                raise Raised(f"injected fault on {module.name}")
             return module
 
     Bomb.armed = True
@@ -135,7 +136,7 @@ def _bomb(item):
         try:
             h.elaborate(built.modules[top])
             return ("no_failure", None)
-        except RuntimeError as e:
+        except (RuntimeError, KeyboardInterrupt) as e:
             msg1 = short_exc(e)
         if "injected fault" not in msg1:
             return ("other_failure", msg1)
@@ -143,8 +144,9 @@ def _bomb(item):
             try:
                 h.elaborate(built.modules[top])
                 return ("bad", "retrying the failed call with the fault still present returned normally")
-            except Exception as e:
-                if "injected fault" not in short_exc(e):
+            except BaseException as e:
+                # after an interruption the later attempts may say "was interrupted" instead of interrupting again
+                if "injected fault" not in short_exc(e) and not (Raised is KeyboardInterrupt and "interrupted" in short_exc(e)):
                     return ("bad", f"retry reported a different error: {short_exc(e)}")
             return ("ok", None)
         if cont == "disarm_retry":
@@ -282,7 +284,9 @@ def core(msg):
 def _gen(item):
     import hdl21 as h
 
-    shape, cont = item
+    shape, cont = item[:2]
+    # what the user's code raises: an ordinary exception, or an interruption (Ctrl-C in a notebook) that is not an `Exception`
+    Exc = {"ValueError": ValueError, "KeyboardInterrupt": KeyboardInterrupt}[item[2] if len(item) > 2 else "ValueError"]
     h.generator.cache.reset()
     state = dict(fail=True, runs=0)
 
@@ -294,7 +298,7 @@ def _gen(item):
     def Inner(p: P) -> h.Module:
         state["runs"] += 1
         if state["fail"]:
-            raise ValueError("generator body failed")
+            raise Exc("generator body failed")
         m = h.Module()
         m.x = h.Port()
         return m
@@ -318,17 +322,17 @@ def _gen(item):
     try:
         g(k=1)
         return ("bad", "generator did not fail as planted")
-    except ValueError as e:
+    except Exc as e:
         pass
-    except Exception as e:
+    except BaseException as e:
         return ("bad", "first call raised something else: " + short_exc(e))
     if cont == "retry_failing":
         try:
             g(k=1)
             return ("bad", "second call returned although the body still raises")
-        except ValueError:
+        except Exc:
             return ("ok", None)
-        except Exception as e:
+        except BaseException as e:
             return ("bad", "retry reports a different error: " + short_exc(e))
     if cont == "retry_fixed":
         state["fail"] = False
@@ -368,6 +372,9 @@ def run(ctx):
                 for v in victims:
                     for cont in ("retry", "disarm_retry", "others", "others_parents_first", "edit_healthy"):
                         items.append((dname, top, pos, v, cont))
+                    if pos in (0, 4, 6):  # the fault is an interruption (not an `Exception`) instead
+                        for cont in ("retry", "others", "edit_healthy"):
+                            items.append((dname, top, pos, v, cont, "interrupt"))
     res = ctx.pmap(_bomb, items, chunk=10)
     for it, (status, detail) in zip(items, res):
         ctx.count(states=1, transitions=4, traces_validated_against_impl=1)
@@ -403,14 +410,14 @@ def run(ctx):
             what = "spurious circular dependency" if "circular" in detail else detail.split(": ", 1)[-1][:50]
             ctx.violation(dict(fault=cls, continuation=it[4], what=what), dict(kind="real", item=list(it)), detail)
     # generators
-    for shape in ("plain", "nested", "shared"):
-        for cont in ("retry_failing", "retry_fixed", "other_params"):
-            status, detail = _gen((shape, cont))
+    for shape, cont, exc in itertools.product(("plain", "nested", "shared"), ("retry_failing", "retry_fixed", "other_params"), ("ValueError", "KeyboardInterrupt")):
+        if True:
+            status, detail = _gen((shape, cont, exc))
             ctx.count(states=1, transitions=3, traces_validated_against_impl=1)
             ctx.fam("generators", **{status: 1})
             ctx.outcome("gen:" + status)
             if status == "bad":
-                ctx.violation(dict(fault="generator_body", continuation=cont, what=("spurious circular dependency" if "ircular" in detail else detail[:50])), dict(kind="gen", item=[shape, cont]), detail)
+                ctx.violation(dict(fault="generator_body", continuation=cont, what=("spurious circular dependency" if "ircular" in detail else detail[:50])), dict(kind="gen", item=[shape, cont, exc]), detail)
     ctx.sample(dict(kind="injected", item=list(items[len(items) // 2])))
     ctx.sample(dict(kind="real", item=list(ritems[len(ritems) // 2]) if ritems else None))
     ctx.sample(dict(kind="generator", item=["nested", "retry_fixed"]))
